@@ -1,8 +1,12 @@
 (* extraction of the executable C15 codec model (ExtrOcamlBasic only; N/Z/positive stay the extracted inductives) *)
 From Coq Require Import List ZArith NArith Extraction ExtrOcamlBasic.
-From LN Require Import C15_Defs.
+From LN Require Import C15_Defs C15_Dest_Defs.
 Extraction Language OCaml.
 Extraction "extracted/c15_model.ml" enc dec accepts reencodes tensor_fmt param_fmt config_fmt feature_fmt string_fmt
   vector_fmt learner_fmt linear_fmt gboost_fmt object_fmt plain_object_fmt wlearner_table affine_fmt stump_fmt hinge_fmt
   table_fmt dtree_fmt hash_elems hash_combine tensor_elems hdr_rawdims hdr_hash vfst vsnd vnat vlist vstring
-  mk_tensor mk_string param_type.
+  mk_tensor mk_string param_type
+  (* extension: the stateful readers *)
+  rd read_into erase reuse_result reuse_state dest_of_bytes src_policy early_exit_policy skip_resize_policy zero_junk
+  d_string d_vector d_param d_config d_feature d_learner d_linear d_gboost d_object d_plain_object d_wlearner_table
+  d_affine d_stump d_hinge d_table d_dtree state_dims state_elems.
